@@ -191,9 +191,14 @@ def mergeDims (Lnum den : Nat) (old new : List (List Nat)) : MState → List Nat
 def mergeCandidates (old new : List (List Nat)) : List Nat :=
   (List.range old.length).filter (fun d => decide ((new.getD d []).length ≤ (old.getD d []).length))
 
-/-- is `order` a permutation of `cands` (both duplicate-free lists of dimensions)? -/
+def nodupB : List Nat → Bool
+  | [] => true
+  | x :: xs => !xs.contains x && nodupB xs
+
+/-- is `order` a permutation of the duplicate-free list `cands`? -/
 def isPermOf (order cands : List Nat) : Bool :=
-  order.length == cands.length && cands.all (fun d => order.contains d) && order.all (fun d => cands.contains d)
+  order.length == cands.length && nodupB order && cands.all (fun d => order.contains d) &&
+    order.all (fun d => cands.contains d)
 
 /-- `find_merge_rechunk(old_chunks, new_chunks, block_size_limit)` with `block_size_limit = Lnum / den`
     and the observed order of the candidates -/
